@@ -1,0 +1,88 @@
+//go:build verif
+// +build verif
+
+package vm
+
+import (
+	"context"
+
+	"github.com/mattn/anko/ast"
+	"github.com/mattn/anko/env"
+)
+
+// Verification hooks (build tag verif only). Every call site is guarded by the
+// constant verifOn, so a normal build contains none of this.
+
+const verifOn = true
+
+// VerifEvent is one observation made at a point where a specification action takes effect.
+type VerifEvent struct {
+	Kind    string          // RunBegin RunEnd StmtEnter StmtExit Poll FuncEnter FuncExit DeferRun Spawn
+	Site    string          // Poll: which polling site
+	Ctx     context.Context // identifies the run (the harness stores a run id in it)
+	Stmt    ast.Stmt        // statement concerned (StmtEnter/StmtExit/RunBegin/RunEnd)
+	Func    *ast.FuncExpr   // FuncEnter/FuncExit
+	Env     *env.Env        // current scope
+	EnvSame bool            // StmtExit/FuncExit: scope identical to the one at the matching enter
+	Err     error           // pending error/signal
+	NDefers int             // length of the invocation's defer list
+	Index   int             // DeferRun: index in the defer list
+	Frame   interface{}     // identity of the invocation (pointer to its run info)
+}
+
+// VerifHook receives the events; nil disables tracing. It may be called from several goroutines.
+var VerifHook func(VerifEvent)
+
+func verifStmt(runInfo *runInfoStruct) func() {
+	h := VerifHook
+	if h == nil {
+		return func() {}
+	}
+	stmt, e := runInfo.stmt, runInfo.env
+	h(VerifEvent{Kind: "StmtEnter", Ctx: runInfo.ctx, Stmt: stmt, Env: e, Err: runInfo.err, NDefers: len(runInfo.defers), Frame: runInfo})
+	return func() {
+		h(VerifEvent{Kind: "StmtExit", Ctx: runInfo.ctx, Stmt: stmt, Env: runInfo.env, EnvSame: runInfo.env == e, Err: runInfo.err, NDefers: len(runInfo.defers), Frame: runInfo})
+	}
+}
+
+func verifPoll(runInfo *runInfoStruct, site string) {
+	if h := VerifHook; h != nil {
+		h(VerifEvent{Kind: "Poll", Site: site, Ctx: runInfo.ctx, Env: runInfo.env, Err: runInfo.err, NDefers: len(runInfo.defers), Frame: runInfo})
+	}
+}
+
+func verifFunc(runInfo *runInfoStruct, f *ast.FuncExpr) func() {
+	h := VerifHook
+	if h == nil {
+		return func() {}
+	}
+	e := runInfo.env
+	h(VerifEvent{Kind: "FuncEnter", Ctx: runInfo.ctx, Func: f, Env: e, Frame: runInfo})
+	return func() {
+		h(VerifEvent{Kind: "FuncExit", Ctx: runInfo.ctx, Func: f, Env: runInfo.env, EnvSame: runInfo.env == e, Err: runInfo.err, NDefers: len(runInfo.defers), Frame: runInfo})
+	}
+}
+
+func verifDefer(runInfo *runInfoStruct, index int) {
+	if h := VerifHook; h != nil {
+		h(VerifEvent{Kind: "DeferRun", Ctx: runInfo.ctx, Index: index, Env: runInfo.env, Frame: runInfo})
+	}
+}
+
+func verifSpawn(runInfo *runInfoStruct) {
+	if h := VerifHook; h != nil {
+		h(VerifEvent{Kind: "Spawn", Ctx: runInfo.ctx, Env: runInfo.env, Frame: runInfo})
+	}
+}
+
+func verifRun(runInfo *runInfoStruct) func() {
+	h := VerifHook
+	if h == nil {
+		return func() {}
+	}
+	stmt, e := runInfo.stmt, runInfo.env
+	h(VerifEvent{Kind: "RunBegin", Ctx: runInfo.ctx, Stmt: stmt, Env: e, Frame: runInfo})
+	return func() {
+		h(VerifEvent{Kind: "RunEnd", Ctx: runInfo.ctx, Stmt: stmt, Env: runInfo.env, EnvSame: runInfo.env == e, Err: runInfo.err, NDefers: len(runInfo.defers), Frame: runInfo})
+	}
+}
